@@ -70,16 +70,21 @@ def _files(root, pats=("**/*",)):
     return sorted(set(out))
 
 
-def inputs_hash(extra=""):
+def inputs_hash(extra="", kani_only=False):
     h = hashlib.sha256()
     fl = _files(os.path.join(REPO, "src"))
     for f in ("Cargo.toml", "Cargo.lock"):
         p = os.path.join(REPO, f)
         if os.path.isfile(p):
             fl.append(p)
-    for d in ("spec", "contracts", "contracts_pec", "kani"):
-        fl += _files(os.path.join(VERIF, d))
-    fl += _files(os.path.join(VERIF, "tools"), ("*.py", "splice/src/*.rs", "splice/Cargo.toml"))
+    if kani_only:
+        # what a Kani harness result depends on: the repository, the harness sources and their generator
+        fl += _files(os.path.join(VERIF, "kani"))
+        fl += [os.path.join(VERIF, "contracts/layouts.toml"), os.path.join(VERIF, "tools/gen_layouts.py"), os.path.join(VERIF, "tools/vkani.py")]
+    else:
+        for d in ("spec", "contracts", "contracts_pec", "kani"):
+            fl += _files(os.path.join(VERIF, d))
+        fl += _files(os.path.join(VERIF, "tools"), ("*.py", "splice/src/*.rs", "splice/Cargo.toml"))
     for f in fl:
         h.update(f.encode())
         h.update(b"\0")
@@ -531,7 +536,7 @@ def run_witnesses(binp, names):
 ASSUMPTIONS = [
     "Soundness of Verus 0.2026.09.13 + Z3 (and of Kani 0.68 + CBMC + CaDiCaL for the K.* harnesses) and of rustc's front end.",
     "vstd's specifications of the core items used: slice/array indexing and range indexing, copy_from_slice, Option/Result, From/Into blanket impl, slice iterators (IteratorSpec), integer casts.",
-    "std::cell::Cell::{new,get,set,replace} terminate without panicking; they carry NO functional postcondition in the Verus unit (weakest contract). Every fact about the three cells comes from Kani on the compiled crate.",
+    "std::cell::Cell::{new,get,set,replace} terminate without panicking; they carry NO functional postcondition in the Verus unit (what a read returns comes from Kani on the compiled crate); Cell writes are governed by the uninterpreted write-policy predicate cell_write_ok (DESIGN.md §3.5a): a write is an obligation of the writing function.",
     "as_bytes([u8;N]) == the array (AsRef/AsMut<[u8]> for [u8;N] is the identity view), N in {1,2,4}: three broadcast axioms.",
     "Bit-field accessor contracts are assumed in the Verus unit (assume_specification) and proved by Kani on the real macro-generated code (K.acc.*); both texts are generated from contracts/layouts.toml.",
     "smbus_pec::pec is assumed to satisfy r == crc8(data) at call sites and that exact clause is proved on the macro expansion (rustc -Zunpretty=expanded) of the locked smbus-pec version with two token rewrites (R4); that the expansion is what cargo links is trusted.",
